@@ -61,9 +61,7 @@ def layout(data):
             img[addr] = 0
             addr += 1
         else:
-            vars_[d["name"]] = (addr, 4, d["n"])
-            for k in range(4 * d["n"]):
-                img[addr + k] = 0
+            vars_[d["name"]] = (addr, 4, d["n"])  # zeroed words: not materialised in the image (absent = 0)
             addr += 4 * d["n"]
     return vars_, img, addr
 
